@@ -30,7 +30,8 @@ CONSTANTS
   W,          \* half width of the acceptance window in ticks
   MaxTamper,  \* how many distinct tamper classes the network may combine (0 = honest network)
   Scope,      \* "agree" = C06 enumeration, "sound" = C07 enumeration, "neg" = small mixed space (restricts Init only)
-  Dev         \* set of deviation flags; {} = the design.  Every flag must break an invariant.
+  DevChoices  \* set of sets of deviation flags, one is picked per behaviour; {{}} = the design.
+              \* Every flag must break an invariant (HandshakeNeg.tla checks that in one run).
 
 VARIABLES
   phase,    \* "start" -> "wire" -> "decided" -> "done"
@@ -39,9 +40,11 @@ VARIABLES
   pkt,      \* first packet on the wire
   tampers,  \* set of tamper classes applied to pkt
   srv,      \* server's decision [verdict, info, key, reply]
-  cli       \* client's result [ok, key]
+  cli,      \* client's result [ok, key]
+  dev       \* the deviation flags of this behaviour (constant along it)
 
-hvars == <<phase, cfg, env, pkt, tampers, srv, cli>>
+hvars == <<phase, cfg, env, pkt, tampers, srv, cli, dev>>
+Dev == dev
 
 -----------------------------------------------------------------------------
 \* ------------------------------------------------------------ value spaces
@@ -189,7 +192,9 @@ Configs ==
 Envs ==
   IF Scope = "agree"
     THEN [ustate : {"bypass", "dbok", "admin"}, off : Offsets, rightKey : {TRUE}]
-    ELSE [ustate : UStates, off : Offsets, rightKey : BOOLEAN]
+  ELSE IF Scope = "sound"
+    THEN [ustate : UStates, off : Offsets, rightKey : BOOLEAN]
+  ELSE [ustate : {"bypass", "admin", "unknown"}, off : {0, W, W + 1}, rightKey : BOOLEAN]
 
 Compatible(c, e) ==
   Scope = "agree" =>
@@ -202,6 +207,7 @@ Init ==
   /\ cfg \in Configs
   /\ env \in Envs
   /\ Compatible(cfg, env)
+  /\ dev \in DevChoices
   /\ pkt = [tr |-> "none"]
   /\ tampers = {}
   /\ srv = Redirect
@@ -211,7 +217,7 @@ ClientSend ==
   /\ phase = "start"
   /\ phase' = "wire"
   /\ pkt' = Hello(cfg)
-  /\ UNCHANGED <<cfg, env, tampers, srv, cli>>
+  /\ UNCHANGED <<cfg, env, tampers, srv, cli, dev>>
 
 Tamper(c) ==
   /\ phase = "wire"
@@ -219,20 +225,20 @@ Tamper(c) ==
   /\ c \in TamperClasses(cfg.tr) \ tampers
   /\ pkt' = Apply(pkt, c)
   /\ tampers' = tampers \cup {c}
-  /\ UNCHANGED <<phase, cfg, env, srv, cli>>
+  /\ UNCHANGED <<phase, cfg, env, srv, cli, dev>>
 
 ServerDecide(choice) ==
   /\ phase = "wire"
   /\ choice \in ParseChoices(pkt)
   /\ srv' = Outcome(pkt, choice)
   /\ phase' = "decided"
-  /\ UNCHANGED <<cfg, env, pkt, tampers, cli>>
+  /\ UNCHANGED <<cfg, env, pkt, tampers, cli, dev>>
 
 ClientFinish ==
   /\ phase = "decided"
   /\ cli' = ClientResult(srv.reply)
   /\ phase' = "done"
-  /\ UNCHANGED <<cfg, env, pkt, tampers, srv>>
+  /\ UNCHANGED <<cfg, env, pkt, tampers, srv, dev>>
 
 Next ==
   \/ ClientSend
